@@ -29,9 +29,9 @@ func runC01(r *core.Run) {
 
 	fConn := p.Field("tds", "Conn", "conn")
 	roles := map[string]string{
-		"tds.NewConn":            "init",
-		"(*tds.Conn).Close":      "close",
-		"(*tds.Conn).ReadFrom":   "read",
+		"tds.NewConn":               "init",
+		"(*tds.Conn).Close":         "close",
+		"(*tds.Conn).ReadFrom":      "read",
 		"(*tds.Channel).sendPacket": "write",
 	}
 	pread := p.Func("tds", "Packet", "ReadFrom")
